@@ -88,6 +88,8 @@ def oracle(line, out):
     w = line.split()
     if out.startswith(('ASAN', 'UBSAN', 'HANG', 'CRASH', 'TERMINATE', 'MISSING')):
         return 'implementation aborted/hung: ' + out
+    if 'REUSED-OBJECT-DIFFERS' in out:
+        return 'an Authorization header that had been set and read before answers differently from a fresh one given the same credentials: ' + out[:200]
     if w[0] == 'b64e':
         b = unhx(w[1])
         exp = ref_b64(b)
